@@ -9,8 +9,7 @@ FAMS = {
                 floors=dict(kspec=45, wrappers=90, sites=70, role=100, fresh=70),
                 declined=["equality with NumPy / nested-list indexing semantics for the composition of slice steps across nesting levels (data-dependent)",
                           "src/python/content.cpp toslice_part (pybind11 cannot be type-checked here)"]),
-    "C02": dict(kre=r"compact_offsets|broadcast_tooffsets|getitem_nextcarry|BitMaskedArray_to|ByteMaskedArray_toIndexedOptionArray|contiguous|localindex|_num",
-                fre=r"compact_offsets|broadcast_tooffsets|toListOffsetArray64|toRegularArray|toByteMaskedArray|toIndexedOptionArray64|contiguous|project|simplify",
+    "C02": dict(kre=r".", fre=r".",   # every kernel and every call site: any of them can make a result depend on the physical layout
                 floors=dict(kspec=22, wrappers=45, sites=60, role=80, fresh=60),
                 declined=["that two different algorithms for two encodings (e.g. ListArray::rpad vs RegularArray::rpad) produce equal values (relational property of two programs)"]),
     "C03": dict(kre=r"reduce|Reducer", fre=r"reduce",
